@@ -112,7 +112,9 @@ fn decide(kind: Kind, path: &str, offset: u64, len: u64) -> Option<Action> {
         }
     }
     if s.recording {
-        s.events.push(Event { path: path.to_string(), kind, offset, len, ok: action.is_none() });
+        // a delayed operation is performed normally afterwards: only Fail / Short make it fail
+        let ok = !matches!(action, Some(Action::Fail(_)) | Some(Action::Short(_)));
+        s.events.push(Event { path: path.to_string(), kind, offset, len, ok });
     }
     action
 }
